@@ -354,6 +354,11 @@ func genNtske(r *lib.Rng, thorough bool) {
 		}
 		runKeStream(tags, []Val{VBy(s), genKeData(r), VI(int64(1 + r.Intn(2))), genSpecs(r)})
 	}
+	// bodies whose length needs the top bit of the 16-bit length field
+	for k := 0; k < 2; k++ {
+		rs := []Val{VL(VI(1), VI(0)), VL(VI(4), VL(VI(15))), VL(VI(5), VBy(r.Bytes(lib.Pick(r, 32768, 40000, 65535)))), VL(VI(0))}
+		runKeRecords("nt,canon,large", []Val{VL(rs...), VBy(nil), genKeData(r), VI(1), VL(VL(VI(0)), VL(VI(2)))})
+	}
 	// a body longer than its 16-bit length field can say
 	for k := 0; k < 2; k++ {
 		rs := []Val{VL(VI(1), VI(0)), VL(VI(5), VBy(r.Bytes(65536+r.Intn(9)))), VL(VI(0))}
